@@ -3,7 +3,7 @@
 //! `--mode kernel`  : random constants / types / byte strings built through the sway-ir API, printed by
 //!                    the real printer (literal extracted from the module text), re-parsed by the real
 //!                    parser; the Lean driver compares with `Model/IrText.lean` byte for byte.
-//!     const <top|nested> <const tokens> ;; <hex of printed literal | noprint> <ok <const tokens> | err | verr | panic>
+//!     const <top|nested> <const tokens> ;; <hex of printed literal | noprint> <ok <const tokens> | err | verr | verr0 | panic>
 //!     ty <ty tokens> ;; <hex of printed type> <ok <ty tokens> | err | panic>
 //!     str <hex bytes> ;; <hex of printed string literal incl. quotes> <ok <hex bytes> | err | panic>
 //! `--mode modules` : whole-module validator over the IR corpus at every pipeline stage.
@@ -243,11 +243,15 @@ fn kernel_nested(c: &Cn, se: &'static SourceEngine) -> (Option<String>, String) 
         m.add_global_variable(&mut ctx, vec!["g".into()], g);
         let text = sway_ir::printer::to_string(&ctx);
         let lit = between(&text, " = const ", "\n").map(|s| s.to_string());
-        (text, lit)
+        // is the module we print valid in the first place? (random shapes may not be)
+        let orig_ok = ctx.verify().is_ok();
+        (text, lit, orig_ok)
     });
-    let Some((text, Some(lit))) = printed else { return (None, "panic".into()) };
+    let Some((text, Some(lit), orig_ok)) = printed else { return (None, "panic".into()) };
     let res = match real_parse(&text, se) {
-        PR::Panic => "panic".to_string(), PR::Err => "err".into(), PR::VErr => "verr".into(),
+        // `verr`: the ORIGINAL verified but the re-parsed module does not (a round-trip failure);
+        // `verr0`: the original was not valid IR either (outside the property)
+        PR::Panic => "panic".to_string(), PR::Err => "err".into(), PR::VErr => if orig_ok { "verr".into() } else { "verr0".into() },
         PR::Ok(ctx2) => {
             let m2 = ctx2.module_iter().next().unwrap();
             match m2.get_global_variable(&ctx2, &vec!["g".to_string()]).and_then(|g| g.get_initializer(&ctx2).copied()) {
